@@ -229,6 +229,18 @@ func validateEncoder(rr *runResult, n int) (int, []string, []string) {
 	sort.Strings(pkgs)
 	for _, pkg := range pkgs {
 		paths := byPkg[pkg]
+		if strings.HasPrefix(pkg, "cmd/") {
+			// tool harnesses: compared against the real binary (toolrun.go)
+			for i, path := range paths {
+				ok, why := toolValidate(w, rr.engine, pkg, tapeOf[path], i)
+				if ok {
+					validated++
+				} else {
+					bad = append(bad, why)
+				}
+			}
+			continue
+		}
 		native, err := nativeReplay(rr.engine, rr.spec, pkg, paths, 1)
 		if err != nil {
 			bad = append(bad, "native run failed: "+oneLine(err.Error()))
